@@ -380,7 +380,9 @@ def arrive (cfg : Cfg) (p : Proc) (s : St) (t : Tok) : List Tok × St :=
       | none => ([], igSet s { g with activated := some t.fid, arrived := [t.fid], sync := [] })
       | some _ => ([], igSet s { g with arrived := g.arrived ++ [t.fid], sync := g.sync ++ [t.fid] })
     | .sub =>
-      if s.subs.any (·.node == n.id) then ([], s.oos s!"two concurrent activations of sub-process {n.id}")
+      -- subprocess.go: the inner nodes exist once per node, activations take turns (`sp.activation`): a token that
+      -- arrives while another one is inside waits at the node and enters when that activation has returned
+      if s.subs.any (·.node == n.id) then ([], { s with parked := s.parked ++ [t] })
       else
         let starts := p.nodes.filter (fun m => m.parent == n.id && m.kind == .start)
         spawnStarts (enterSub cfg s t n starts) starts
@@ -394,6 +396,27 @@ def arrive (cfg : Cfg) (p : Proc) (s : St) (t : Tok) : List Tok × St :=
         let (toks, stay, s) := selectFlows cfg p s t n.outs false
         (if stay then t :: toks else toks, s)
     | _ => ([], { s with parked := s.parked ++ [t] })
+
+/-- subprocess.go `sp.activation`: when an activation of sub-process node `node` has returned (tokens `out` travel on), the
+next token waiting at that node takes its turn -/
+def nextTurn (s : St) (node : String) (out : List Tok) : List Tok × St :=
+  match s.parked.find? (·.node == node) with
+  | none => (out, s)
+  | some w => (out ++ [w], { s with parked := s.parked.filter (· != w) })
+
+theorem nextTurn_causes (s : St) (node : String) (out : List Tok) : (nextTurn s node out).2.causes = s.causes := by
+  unfold nextTurn; split <;> rfl
+
+theorem nextTurn_idle (s : St) (node : String) (out : List Tok) (h : s.parked.find? (·.node == node) = none) :
+    nextTurn s node out = (out, s) := by
+  unfold nextTurn; rw [h]
+
+theorem nextTurn_subs (s : St) (node : String) (out : List Tok) : (nextTurn s node out).2.subs = s.subs := by
+  unfold nextTurn; split <;> rfl
+
+theorem nextTurn_fst (s : St) (node : String) (out : List Tok) :
+    (nextTurn s node out).1 = out ++ (s.parked.find? (·.node == node)).toList := by
+  unfold nextTurn; split <;> rename_i h <;> simp [h]
 
 /-- let one inclusive gateway that may synchronise do so (`trySync` + probing report) -/
 def settleIncl (cfg : Cfg) (p : Proc) (s : St) (work : List Tok) : Option (List Tok) × St :=
@@ -437,7 +460,7 @@ def settle (cfg : Cfg) (p : Proc) (s : St) : List Tok × St :=
         | none => ([], s)
         | some n =>
           let (toks, stay, s) := selectFlows cfg p s t n.outs false
-          if stay then ([t] ++ toks, s) else (toks, s)
+          nextTurn s t.node (if stay then [t] ++ toks else toks)
 
 /-- run the work list until every token is parked -/
 def runWork (cfg : Cfg) (p : Proc) : Nat → List Tok → St → St
